@@ -610,3 +610,36 @@ def r6(rr, repo):
     for n in unv:
         names = [U(e) for e in n.targets[0].elts]
         rr.ob('video reader: the parsed size is taken apart as (width, aspect, height, interpolation)', names[0].startswith('w') and names[2].startswith('h') and 'asp' in names[1], vmod, n, witness=str(names), key='vsize-unpack')
+
+
+@rule('C17.R7', "a chain of transforms is applied in the order it was configured: every topic's chain starts empty and is filled by ONE pass over the configured list (all-topics and topic-specific transforms "
+                'interleaved as written), and execute_xforms walks that chain front to back')
+def r7(rr, repo):
+    mod, setup = repo.find(f'{UT}::Util.setup')
+    _, proc = repo.find(f'{UT}::Util.process')
+    _, exe = repo.find(f'{UT}::Util.execute_xforms')
+    st = [n for n in walk_scope(setup) if isinstance(n, ast.Assign) and any(U(t) == 'self.xforms' for t in n.targets)]
+    rr.ob('the filter keeps the configured list of transforms as it is (one list, not split, filtered or sorted)', len(st) == 1 and U(st[0].value) in ('config.xforms', 'config.xforms or []', 'list(config.xforms)'), mod, st[0] if st else setup,
+          witness=U(st[0].value)[:80] if st else 'no store', key='xforms-kept')
+    other = [n for n in ast.walk(setup) if isinstance(n, ast.Assign) and any(isinstance(t, ast.Attribute) and 'xform' in t.attr and t.attr != 'xforms' for t in n.targets)]
+    rr.ob('no second list of transforms is derived in setup', not other, mod, other[0] if other else setup, witness='; '.join(U(n.targets[0]) for n in other), key='xforms-single-list')
+    # process(): chains start empty
+    chains = [k for k in ast.walk(proc) if isinstance(k, ast.keyword) and k.arg == 'xforms']
+    rr.floor('per-topic chain initialisations', len(chains), 1, mod, proc)
+    for k in chains:
+        rr.ob("every topic's chain starts empty", isinstance(k.value, ast.List) and not k.value.elts, mod, k.value, witness=U(k.value)[:60], key='chain-empty')
+    loops = [n for n in walk_scope(proc) if isinstance(n, ast.For) and not any(isinstance(a, ast.For) for a in ancestors(n)) and any(isinstance(c, ast.Call) and isinstance(c.func, ast.Attribute) and c.func.attr in ('append', 'extend', 'insert') and U(c.func.value).endswith('.xforms') for c in ast.walk(n))]
+    rr.ob('the chains are filled by one pass', len(loops) == 1, mod, loops[0] if loops else proc, witness=f'{len(loops)} filling loops', key='chain-one-pass')
+    for lp in loops[:1]:
+        it = U(lp.iter)
+        src_ok = it == 'self.xforms' or any(isinstance(n, ast.NamedExpr) and n.target.id == it and U(n.value) == 'self.xforms' for n in ast.walk(proc)) or \
+            any(isinstance(n, ast.Assign) and U(n.targets[0]) == it and U(n.value) == 'self.xforms' for n in ast.walk(proc))
+        rr.ob('that pass walks the configured list itself, front to back', src_ok, mod, lp, witness=it, key='chain-source')
+        var = U(lp.target)
+        for c in [c for c in ast.walk(lp) if isinstance(c, ast.Call) and isinstance(c.func, ast.Attribute) and U(c.func.value).endswith('.xforms') and c.func.attr in ('append', 'extend', 'insert')]:
+            rr.ob('a transform is appended (to the end of) the chain of each topic it applies to', c.func.attr == 'append' and len(c.args) == 1 and U(c.args[0]) == var, mod, c, witness=U(c)[:80], key='chain-append')
+    sorts = [c for c in q.calls_in(proc) if (isinstance(c.func, ast.Attribute) and c.func.attr in ('sort', 'reverse')) or U(c.func) in ('sorted', 'reversed')]
+    rr.ob('nothing reorders the chains', not sorts, mod, sorts[0] if sorts else proc, key='chain-no-reorder')
+    # execute_xforms walks the chain in order
+    ex = [n for n in walk_scope(exe) if isinstance(n, ast.For) and U(n.iter).endswith('.xforms')]
+    rr.ob('execute_xforms applies the chain front to back (plain iteration over the list)', len(ex) == 1, mod, ex[0] if ex else exe, witness='; '.join(U(n.iter) for n in walk_scope(exe) if isinstance(n, ast.For))[:100], key='chain-executed-in-order')
